@@ -223,7 +223,8 @@ def check(case, res):
     else:
         if run1.get("r") != "rerr":
             vs.append(Violation("error-not-reported:" + tag, "expected %s reported to the host, got %s" % (detail.name, run1), case))
-        elif run1.get("msg") != detail.msg or (detail.no is not None and run1.get("no") != detail.no):
+        elif (detail.no == 1 and run1.get("msg") != detail.msg) or (detail.no is not None and run1.get("no") != detail.no):
+            # a user error is identified by its name, any other by its number (message wording is not part of the property)
             vs.append(Violation("error-identity:" + tag, "expected %s (%s), host got %s" % (detail.msg, detail.no, run1), case))
         if run1.get("rc"):
             vs.append(Violation("residue:pending-return", "a return is still pending after the error was reported", case))
